@@ -55,7 +55,12 @@ def contexts(expr_text):
     return [("select", "from t | select {x = %s}" % expr_text),
             ("case_branch", "from t | select {x = case [a == 1 => %s, true => \"z\"]}" % expr_text),
             ("relation_literal", "from [{x = %s}]" % expr_text),
-            ("filter", "from t | filter b == %s | select {x = b}" % expr_text)]
+            ("filter", "from t | filter b == %s | select {x = b}" % expr_text),
+            # other code paths a literal can take: an element of an `in` list, an argument of a std function,
+            # the default value of a named function parameter
+            ("in_list", "from t | filter (b | in [%s, \"zz\"]) | select {x = b}" % expr_text),
+            ("func_arg", "from t | sort a | select {x = (text.replace \"q\" %s b)}" % expr_text),
+            ("named_default", "let f = x d:%s -> x ?? d\nfrom t | select {x = (f null)}" % expr_text)]
 
 
 def decode_sql_string(tok, dialect):
@@ -113,9 +118,13 @@ def judge_string(w, v, style, text, ctx_name, src, dialect, benign_ast, do_exec)
         else:
             rows = ex.get("rows", [])
             got = [row[0] for row in rows]
-            want_rows = {"select": 2, "case_branch": 2, "relation_literal": 1, "filter": None}[ctx_name]
-            if ctx_name == "filter":
+            want_rows = {"select": 2, "case_branch": 2, "relation_literal": 1, "filter": None, "in_list": None, "func_arg": 2, "named_default": 2}[ctx_name]
+            if ctx_name in ("filter", "in_list"):
                 pass
+            elif ctx_name == "func_arg":
+                # rows (1,'q'), (2,'r') in that order: replace 'q' by v -> v, 'r'
+                if got != [v, "r"] and not (v == "" and got == ["", "r"]):
+                    out.append(("executed_value_differs", "wanted %r got %r sql=%r" % ([v, "r"], got[:3], sql[:200])))
             elif ctx_name == "case_branch":
                 if v not in got:
                     out.append(("executed_value_differs", "wanted %r got %r sql=%r" % (v, got[:3], sql[:200])))
